@@ -2589,7 +2589,7 @@ pub fn vp_roundtrip_nack(nack: &crate::feedback::nack::NackBuilder, sender: u32,
     let b = crate::TransportFeedback::builder(nack).sender_ssrc(sender).media_ssrc(media).padding(padding);
     let ghost p0 = crate::feedback::nack::nack_sorted(nack.rtp_seq@);
     proof {
-        crate::feedback::nack::axiom_nack_sorted_inc(nack.rtp_seq@);
+        crate::feedback::nack::lemma_nack_sorted_inc(nack.rtp_seq@);
         lemma_img_nack_len(p0);
     }
     assert(b.spec_calc() is Ok);
